@@ -348,7 +348,7 @@ func cacheKeysScenario() *scenario {
 // the round have done their lookups on the shared hierarchy.  A lookup is read only: what one session resolves must not
 // depend on what another session looked up before it.
 func locationsScenario() *scenario {
-	lu := func(n int) string { return fmt.Sprintf("c0900000-0000-4000-c000-%012d", n) }
+	lu := func(n int) string { return fmt.Sprintf("c0900001-0000-4000-8000-%012d", n) }
 	flowMain := lu(10)
 	channel := lu(5)
 	loc := func(name string, aliases []string, children ...obj) obj {
